@@ -12,7 +12,8 @@ RULE = (
     "candidates/seeds/sets/fallback on expanded, unexpanded and skipped nodes, skipping, control, pickling, "
     "reclaim, name sanitising) with default and extreme configurations; every call runs under the "
     "sys.monitoring work meter (executed loop back-edges inside biobalm code vs the budget "
-    "B(n,nodes) = 5e4(n+1)^3 + 500(n+1)^2(2^n+nodes+1) + 64*simulation_budget*(n+1)(n+1+nodes), nodes = current "
+    "B(n,nodes) = 5e4(n+1)^3 + 500(n+1)^2(2^n+nodes+1) + 64*simulation_budget*(n+1)(n+1+nodes) [+ 250(n+1)^2*paths for succession control, paths = "
+    "root->node paths of the diagram], nodes = current "
     "size of the diagram when the bound is reached) and the while-loop fingerprint detector (same loop head, same frame, "
     "identical locals 50 times in a row); non-trivial = history with >= 3 metered calls of which one is an "
     "attractor computation; distinct by hash of rules+history"
@@ -111,13 +112,18 @@ def run_case(case):
     n1 = ref.n + 1
     node_cap = 3 ** min(ref.n, 12)
 
-    def run(fn, label, nodes):
+    def run(fn, label, nodes, cur=None):
         def bound():
             # nodes = size of the largest live diagram when the bound is evaluated (at the start of the call
             # and again whenever it is reached: whole-diagram operations grow the diagram while they run);
             # the simulation budget is a user-set amount of work per node: it enters the bound linearly
-            k = min(max(nodes, bb.live_nodes()), node_cap)
-            return bb.budget_for(min(ref.n, 24), k) + 64 * msb * n1 * (n1 + k)
+            k = min(max(nodes, bb.live_nodes(), len(cur) if cur is not None else 0), node_cap)
+            b = bb.budget_for(min(ref.n, 24), k) + 64 * msb * n1 * (n1 + k)
+            if label == "control":
+                # succession control enumerates successions = root->node paths of the diagram (39 912 of them in a
+                # 107-node diagram with skip nodes, 8 variables): its work is proportional to that output size
+                b += 250 * n1 * n1 * bb.live_paths(extra=cur)
+            return b
 
         try:
             r, used = bb.metered(fn, bound, fingerprints=True)
@@ -154,7 +160,7 @@ def run_case(case):
             holder["sd"] = s2
             return r
 
-        r, ok = run(f, label, len(sd))
+        r, ok = run(f, label, len(sd), sd)
         hist_done.append(label)
         if not ok:
             break
